@@ -30,6 +30,7 @@ fn main() {
         "ident" => artefacts::ident(tier, seed, &mut out),
         "artefacts" => artefacts::artefacts(tier, seed, &mut out),
         "behave" => behave::run(tier, seed, &mut out),
+        "render" => behave::run_render(tier, seed, &mut out),
         "behave_subsets" => behave::run_subsets(tier, seed, &mut out),
         "determinism" => determinism::run(tier, seed, &mut out),
         "exprgen" => exprs::run_gen(tier, seed, &mut out),
